@@ -187,6 +187,21 @@ pub fn atomic_point() {
         }
     }
 }
+/// `raw()` on the plain atomics too, so that the harnesses read the same way whether or not the
+/// scratch copy is instrumented (the wrappers have an inherent `raw()`).
+pub trait RawView<T> {
+    fn raw(&self) -> &T;
+}
+impl RawView<core::sync::atomic::AtomicU32> for core::sync::atomic::AtomicU32 {
+    fn raw(&self) -> &core::sync::atomic::AtomicU32 {
+        self
+    }
+}
+impl RawView<core::sync::atomic::AtomicBool> for core::sync::atomic::AtomicBool {
+    fn raw(&self) -> &core::sync::atomic::AtomicBool {
+        self
+    }
+}
 pub struct VAtomicU32(core::sync::atomic::AtomicU32);
 impl VAtomicU32 {
     pub const fn new(v: u32) -> Self {
